@@ -31,7 +31,7 @@ def gen_doc(rng):
                 kids.append(elem(d - 1))
             elif r < 0.8:
                 if not (kids and kids[-1]["k"] == "text"):
-                    kids.append(xdm.T(rng.choice(["t", "u", " t ", "1"])))
+                    kids.append(xdm.T(rng.choice(["t", "u", " t ", "1", "1", "2", "12", "5"])))      # digits: number values of elements
             elif r < 0.9:
                 kids.append(xdm.C("c"))
             else:
@@ -74,7 +74,10 @@ def observations():
             P(step("following-sibling", T_NODE, num(1), abbr=False)), P(step("preceding-sibling", T_NODE, num(1), abbr=False)), P(step("following", T_TEXT, abbr=False)),
             P(step("preceding", T_NODE, num(1), abbr=False)), P(step("descendant", T_NODE)), fn("count", P(step("preceding-sibling", T_NODE, abbr=False))),
             P(ch(T_ANY), ch(T_TEXT)), P(ch(T_TEXT, bin_("=", fn("position"), fn("last")))), fn("boolean", P(ch(T_TEXT))), fn("concat", P(ch(T_NODE, num(1))), lit("|")),
-            fn("sum", P(ch(T_TEXT))), fn("name", P(ch(T_NODE, num(1)))), P(step("parent", T_NODE), ch(T_NODE)), fn("count", P(step("parent", T_NODE), ch(T_TEXT)))]
+            fn("sum", P(ch(T_TEXT))), fn("name", P(ch(T_NODE, num(1)))), P(step("parent", T_NODE), ch(T_NODE)), fn("count", P(step("parent", T_NODE), ch(T_TEXT))),
+            # the NUMBER value of a node is the number its (stripped) string-value spells: "12 5" is NaN, "125" is not
+            fn("number", P(step("self", T_NODE))), bin_("+", P(step("self", T_NODE)), num(1)), fn("number", P(ch(T_ANY, num(1)))), bin_("*", P(ch(T_ANY, num(1))), num(2)),
+            fn("floor", P(step("self", T_NODE))), fn("number"), bin_("=", P(step("self", T_NODE)), num(12)), fn("sum", P(ch(T_ANY)))]
 
 
 # keys whose match or use expression sees whitespace-only text nodes (12.2: "every observation is consistent": key tables are built
@@ -176,15 +179,21 @@ def run(res, tier, seed):
     c02.mc_laws(res, tier, wd)
     ndocs = 30 if quick else 300
     docs = [gen_doc(rng) for _ in range(ndocs)]
+    # elements whose number value depends on stripping: digits in child elements, whitespace-only text between them
+    E_, T_ = xdm.E, xdm.T
+    docs.append(xdm.R(E_("a", E_("b", T_("1")), T_(" "), E_("c", T_("2")), T_("\n"),
+                         E_("a", E_("b", T_("12")), T_("  "), E_("b", T_("5")), a=[xdm.A("x", "1")]),
+                         T_(" "), E_("c", T_(" "), E_("b", T_("7")), T_(" "), E_("b", T_("0")), T_("\n ")),
+                         E_("b", T_(" "), E_("c", T_("3")), a=[xdm.A("space", "preserve", p="xml", u=xdm.XML_NS)]))))
     flats = [xdm.flatten(t) for t in docs]
     allobs = observations()
     keyobs = key_observations()
     ncases = 150 if quick else 3000
     cases, metas = [], []
     for k in range(ncases):
-        d = rng.randrange(ndocs)
+        d = rng.randrange(len(docs)) if k % 6 else len(docs) - 1          # every 6th case on the digits document
         decls = gen_decls(rng)
-        obs = rng.sample(allobs, 7) + rng.sample(keyobs, 3)
+        obs = rng.sample(allobs, 9) + rng.sample(keyobs, 3)
         numbers = rng.sample(NUMBERS, 2)
         cdir = os.path.join(wd, "case%d" % k); os.makedirs(cdir)
         for fn_, txt in render(decls, obs, numbers).items():
